@@ -28,6 +28,21 @@ Definition cell_under (hs : list K) (k : K) (r : list C) : option (option C) :=
 Definition cells_in_header_order (n : nat) (r : list C) : list (option C) :=
   map Some (firstn n r) ++ repeat None (n - length r).
 
+(* a schema that declares a column position for each name, in any order and for any subset of
+   the columns: a name reads the cell at its declared position, and the value list is those
+   cells in the order the names are declared *)
+Fixpoint declared_position (decl : list (K * nat)) (k : K) : option nat :=
+  match decl with
+  | [] => None
+  | (k0, p) :: t => if keqb k0 k then Some p else declared_position t k
+  end.
+
+Definition declared_cell (decl : list (K * nat)) (k : K) (r : list C) : option (option C) :=
+  option_map (nth_error r) (declared_position decl k).
+
+Definition cells_at (decl : list (K * nat)) (r : list C) : list (option C) :=
+  map (fun kp => nth_error r (snd kp)) decl.
+
 (* an external schema must list the names in sheet order with positions 0..n-1 *)
 Definition with_positions (names : list K) : list (K * nat) :=
   combine names (seq 0 (length names)).
